@@ -1260,10 +1260,31 @@ class Exec:
         if isinstance(obj, dict):
             k2 = k
             if isinstance(k2, (Sym, SStr)):
-                # symbolic key into a concrete dict: fork over the keys
+                # symbolic key into a concrete dict: ONE fork (present / absent), the value merged over the matching keys
+                alts_ = []
                 for key in obj:
-                    if self.truth(self.equals(key, k2)):
+                    c = self.equals(key, k2)
+                    if c is True:
                         return obj[key]
+                    if c is False:
+                        continue
+                    alts_.append((bool_term(c), obj[key]))
+                if not alts_:
+                    raise PyRaise(make_exc('KeyError', k2))
+                if len(alts_) > 8:
+                    found = z3.Or(*[c for c, _ in alts_])
+                    if not self.branch(found, tag='dict-key-present?'):
+                        raise PyRaise(make_exc('KeyError', k2))
+                    vals = [v for _, v in alts_]
+                    if all(isinstance(v, (int, Sym)) and not isinstance(v, bool) for v in vals):
+                        r = vals[-1]
+                        for c, v in reversed(alts_[:-1]):
+                            r = ite(Sym(c, 'bool'), v, r)
+                        return r
+                    return GV.make(alts_)
+                for c, v in alts_:
+                    if self.truth(Sym(c, 'bool')):
+                        return v
                 raise PyRaise(make_exc('KeyError', k2))
             try:
                 return obj[k2]
